@@ -127,7 +127,18 @@ Chain(ls, ops) == OrFold(Groups(ls, ops, 1, <<ls[1]>>))
 RandLeaf == IF RandomElement(1..4) = 1 THEN N(L(RandomElement(Leaves))) ELSE L(RandomElement(Leaves))
 Chains == UNION {{Chain([i \in 1..(n + 1) |-> RandLeaf], ops) : <<ops, k>> \in [1..n -> {"and", "or"}] \X (1..6)} : n \in 3..4}
 
-Chosen == IF Depth = 0 THEN Chains ELSE IF Depth >= 3 THEN {RandExpr(Depth) : i \in 1..NSample}
+\* every way of grouping three and four operands (all binary tree shapes) with every assignment of && and || to the inner nodes,
+\* leaves drawn at random: printed with minimal parentheses these are exactly the texts in which a parenthesised group meets
+\* an operator of the other or of the same kind on either side
+RECURSIVE Shapes(_)
+Shapes(n) == IF n = 1 THEN {<<>>}
+             ELSE UNION {{<<l, r>> : l \in Shapes(k), r \in Shapes(n - k)} : k \in 1..(n - 1)}
+RECURSIVE Fill(_)
+Fill(sh) == IF sh = <<>> THEN {RandLeaf}
+            ELSE {B(op, l, r) : op \in {"and", "or"}, l \in Fill(sh[1]), r \in Fill(sh[2])}
+Skeletons == UNION {Fill(x[1]) : x \in (Shapes(3) \cup Shapes(4)) \X (1..6)}    \* six random leaf assignments per shape
+
+Chosen == IF Depth = 0 THEN Chains \cup Skeletons ELSE IF Depth >= 3 THEN {RandExpr(Depth) : i \in 1..NSample}
           ELSE IF NSample = 0 THEN Exprs(Depth) ELSE RandomSubset(NSample, Exprs(Depth))
 Init == e \in Chosen /\ vi \in 1..NVariants /\ done = FALSE
 Next == /\ ~done /\ done' = TRUE /\ UNCHANGED <<e, vi>>
